@@ -34,12 +34,25 @@ def run(ctx):
                 "absent categories, stored common frequent/rare/absent) x N in 0..8 x fact NaN-marked or (values, validity), 1 column or "
                 "(N,K) K in 1..3, int64/float64, missing share 0/15/30/60/100 % x weights None/scalar/scalar pair/array/pair with zeros "
                 "and missing x ignore_missing x dense arrays for xcube in int8..uint64 or iindex.to_array() x explicit/inferred shape; "
-                "values hidden under False validity = NaN/inf/-inf/1.5e300/0/same; boundary stream: extent products 255/256/257/65535/"
-                "65536/65537 and first-dimension-wide shapes with rows in the last cells (sparse evaluation beyond 1024 cells); "
-                "zero-dimension stream; dtype sweep; weight-spread stream (one or two rows weigh 2**20..2**40 next to 0.25..7, all dyadic, compared "
-                "exactly); decimal-weights stream (0.9, 1.2, 1.3 ... with absent categories, tolerance stream); dyadic inputs compared exactly inside Coq, plus a float stream judged within "
-                "1e-9 of the grand total by the exact oracle; a case = one (call, format) literal, non-trivial when N > 0 and the "
-                "cube has >= 1 dimension or a fact/weight")
+                "values hidden under False validity = NaN/inf/-inf/1.5e300/0/same.  Streams: random; boundary (extent products 255/256/257/"
+                "65535/65536/65537 and first-dimension-wide shapes, rows in the last cells; sparse evaluation beyond 1024 cells); "
+                "zero-dimension; dtype sweep; weight-spread (one or two rows weigh 2**20..2**40 next to 0.25..7, all dyadic, exact); "
+                "int-weights (integer weights 0..250 whose sums cross 128/256, handed over in narrow integer dtypes); decimal-weights "
+                "(0.9, 1.2, 1.3 ... with absent categories; tolerance); scale (N in 30..120 rows, 2-3 lopsided dimensions: a dominant "
+                "category, rare categories of 1-3 rows; dyadic or decimal weights; facts with a few missing rows); many-columns (one "
+                "dimension of 23..40 categories, 12..14 fact columns); float (arbitrary doubles; tolerance 1e-9 of the grand total).  "
+                "Dyadic cases are compared exactly by the oracle AND inside Coq while the literal stays within a few hundred numbers (the "
+                "theorems are size-independent); larger and inexact cases are judged by the exact oracle and cube against cube only and "
+                "counted as oracle_only_calls.  In about 60 % of the cases the FORM of every argument varies with the content unchanged "
+                "(harness/forms.py; tags form:* in the distribution): facts float64/int64 in C / Fortran / strided / negative-stride / "
+                "read-only / transposed layouts, float32 when exact, narrow signed ints when unweighted and the sums fit, nested lists; "
+                "validity arrays as bool (any layout) / uint8 / list; weights float64 / float32 / every integer dtype holding them / list, "
+                "any layout; scalar weights as Python float / int, numpy.float64 / float32 / int64, 0-d array; xcube arrays in every integer "
+                "dtype and layout; iindex dimensions from the constructor (row-id column views, NumPy-scalar N) or from_array on narrow "
+                "dtypes; interacting_shape / N as signed NumPy scalars.  Not generated (outside the quantifier or documented; notes FORM "
+                "FINDINGS): unsigned / overflowing narrow facts, a weights tuple of numbers, interacting_shape as a list or of unsigned "
+                "NumPy scalars, narrow NumPy integer scalars as a scalar weight, a NumPy-scalar iindex common.  A case = one (call, format) "
+                "literal, non-trivial when N > 0 and the cube has >= 1 dimension or a fact/weight")
     ctx.trusted = list(core.STD_TRUSTED) + [
         "SetOps: set_intersect_merge_np on increasing inputs = inter_spec (property C08); extra axes of a dimension (C13)",
         "NumPy primitives modelled, not verified: bincount (weights/minlength), boolean-mask selection and sum over axis 0, astype "
@@ -99,6 +112,8 @@ def run(ctx):
         one(ca.spread_case(rng), "weight-spread")
     for i in range(6000 if thorough else 400):
         one(ca.decimal_case(rng, absent=(i % 2 == 0)), "decimal-weights")
+    for i in range(2500 if thorough else 200):
+        one(ca.int_weights_case(rng), "int-weights")
     for i in range(1500 if thorough else 120):
         one(ca.scale_case(rng, decimal=(i % 3 == 2)), "scale")
     for i in range(30 if thorough else 3):
